@@ -1,6 +1,7 @@
 import FxpVerif.Model.Digits
 import Mathlib.Tactic.Ring
 import Mathlib.Tactic.Linarith
+import Mathlib.Data.List.Induction
 /-! Lemmas on digit lists and digit characters. -/
 namespace Fxp
 
@@ -107,5 +108,103 @@ theorem spanDec_digits (ds : List Nat) (h : ∀ d ∈ ds, d < 10) (rest : List C
     have hd := isDecDigit_digitChar d (h d (by simp))
     simp only [List.map_cons, List.cons_append, spanDec, hd, if_true]
     rw [ih (fun x hx => h x (by simp [hx]))]
+
+end Fxp
+
+namespace Fxp
+
+/-- most-significant-first view of fixed-width rendering. -/
+theorem renderFixed_succ_head (b w k : Nat) :
+    renderFixed b (w + 1) k = (k / b ^ w % b) :: renderFixed b w (k % b ^ w) := by
+  induction w generalizing k with
+  | zero => simp [renderFixed, Nat.mod_one]
+  | succ w ih =>
+    rw [renderFixed, ih (k / b)]
+    simp only [List.cons_append]
+    congr 1
+    · rw [Nat.div_div_eq_div_mul, ← pow_succ']
+    · rw [renderFixed]
+      congr 1
+      · congr 1
+        rw [pow_succ', Nat.mod_mul_right_div_self]
+      · congr 1
+        rw [pow_succ', Nat.mod_mul_right_mod]
+
+theorem parseDigits_replicate_zero (b k : Nat) (ds : List Nat) :
+    parseDigits b (List.replicate k 0 ++ ds) = parseDigits b ds := by
+  unfold parseDigits
+  rw [List.foldl_append]
+  congr 1
+  induction k with
+  | zero => rfl
+  | succ k ih => simp [List.replicate_succ, ih]
+
+theorem parseDigits_lt (b : Nat) (hb : 0 < b) (ds : List Nat) (h : ∀ d ∈ ds, d < b) :
+    parseDigits b ds < b ^ ds.length := by
+  induction ds using List.reverseRecOn with
+  | nil => simp [parseDigits]
+  | append_singleton ds d ih =>
+    rw [parseDigits_append, List.length_append, List.length_singleton, pow_succ]
+    have h1 := ih (fun x hx => h x (by simp [hx]))
+    have h2 : d < b := h d (by simp)
+    nlinarith
+
+/-- rendering the value of a digit list at the list's own width gives the list back. -/
+theorem render_parse (b : Nat) (hb : 0 < b) (ds : List Nat) (h : ∀ d ∈ ds, d < b) :
+    renderFixed b ds.length (parseDigits b ds) = ds := by
+  induction ds using List.reverseRecOn with
+  | nil => simp [renderFixed]
+  | append_singleton ds d ih =>
+    have h2 : d < b := h d (by simp)
+    rw [List.length_append, List.length_singleton, renderFixed, parseDigits_append]
+    have e1 : (parseDigits b ds * b + d) / b = parseDigits b ds := by
+      rw [Nat.add_comm, Nat.add_mul_div_right _ _ hb, Nat.div_eq_of_lt h2, Nat.zero_add]
+    have e2 : (parseDigits b ds * b + d) % b = d := by
+      rw [Nat.add_comm, Nat.add_mul_mod_self_right, Nat.mod_eq_of_lt h2]
+    rw [e1, e2, ih (fun x hx => h x (by simp [hx]))]
+
+theorem natDigitsAux_length_le (b : Nat) (hb : 2 ≤ b) (fuel k w : Nat) (hf : k < fuel) (hw : 1 ≤ w) (hk : k < b ^ w) :
+    (natDigitsAux b fuel k).length ≤ w := by
+  induction fuel generalizing k w with
+  | zero => omega
+  | succ fuel ih =>
+    unfold natDigitsAux
+    split
+    · simp; omega
+    · rename_i h
+      have hk' : k / b < fuel := by
+        have : k / b < k := Nat.div_lt_self (by omega) (by omega)
+        omega
+      have hw2 : 2 ≤ w := by
+        by_contra hc
+        have : w = 1 := by omega
+        subst this; simp at hk; omega
+      have hkb : k / b < b ^ (w - 1) := by
+        rw [Nat.div_lt_iff_lt_mul (by omega), ← pow_succ]
+        have : w - 1 + 1 = w := by omega
+        rw [this]; exact hk
+      have := ih (k / b) (w - 1) hk' (by omega) hkb
+      simp; omega
+
+theorem natDigits_length_le (b : Nat) (hb : 2 ≤ b) (k w : Nat) (hw : 1 ≤ w) (hk : k < b ^ w) :
+    (natDigits b k).length ≤ w :=
+  natDigitsAux_length_le b hb (k + 1) k w (by omega) hw hk
+
+/-- zero-padded variable-width digits are the fixed-width rendering. -/
+theorem pad_natDigits (b : Nat) (hb : 2 ≤ b) (k w : Nat) (hw : 1 ≤ w) (hk : k < b ^ w) :
+    List.replicate (w - (natDigits b k).length) 0 ++ natDigits b k = renderFixed b w k := by
+  have hl := natDigits_length_le b hb k w hw hk
+  have hd : ∀ d ∈ List.replicate (w - (natDigits b k).length) 0 ++ natDigits b k, d < b := by
+    intro d hd
+    rcases List.mem_append.mp hd with h | h
+    · have := List.eq_of_mem_replicate h; omega
+    · exact natDigits_lt b hb k d h
+  have hp : parseDigits b (List.replicate (w - (natDigits b k).length) 0 ++ natDigits b k) = k := by
+    rw [parseDigits_replicate_zero, parse_natDigits b hb]
+  have hlen : (List.replicate (w - (natDigits b k).length) 0 ++ natDigits b k).length = w := by
+    simp; omega
+  have := render_parse b (by omega) _ hd
+  rw [hp, hlen] at this
+  exact this.symm
 
 end Fxp
